@@ -8,7 +8,7 @@
    selects `Option<T>`.  [wf_vals]: every value is in the range of its Rust type, nulls
    only when nullable, fewer than 2^63 values. *)
 From AM Require Import Base.Prelude Base.Leb128 Hexane.Hleb Hexane.HlebProofs Hexane.Rle Hexane.RleProofs
-  Hexane.BoolCol Hexane.BoolColProofs Hexane.Delta Hexane.DeltaProofs.
+  Hexane.BoolCol Hexane.BoolColProofs Hexane.Delta Hexane.DeltaProofs Hexane.DeltaAccept.
 Local Open Scope N_scope.
 
 (* 1. save then load gives the same values: per column type *)
@@ -170,10 +170,30 @@ Qed.
 Theorem C35_bool_load_never_panics : forall b : bytes, bool_load b <> Panic.
 Proof. exact bool_load_no_panic. Qed.
 
-(* 6. delta columns.  [lo],[hi]: the i64 domain of the element type.  The delta loader
-   accepts a subset of the i64 RLE loader with the same runs, so canonical form transfers; re-save is proved; of the save/load round trip only the second half
-   is proved (IF the loader accepts the writer's output THEN it holds the same values):
-   that the per-slab domain check accepts every in-domain list is checked differentially. *)
+(* 6. delta columns.  [lo],[hi]: the i64 domain of the element type (i64: the whole range;
+   u64: 0 .. i64::MAX).  The delta loader accepts a subset of the i64 RLE loader with the
+   same runs, so canonical form transfers; re-save is proved for all bytes.  Save then load:
+   proved for every value list inside a window [wlo, whi] that contains 0, is at most
+   2^63 - 1 wide and lies inside the domain -- for u64 / Option<u64> columns that is every
+   list the type can hold (C35_delta_u64_load_save).  hexane's documented contract for signed
+   columns (any 2^63-wide window, 0 not necessarily inside) is wider: outside the window
+   hypothesis only the second half is proved (C35_delta_load_save_partial: IF the loader
+   accepts the writer's output THEN it holds the same values). *)
+Theorem C35_delta_load_save : forall (nullable : bool) (lo hi wlo whi : Z) (vs : list (option Z)),
+  (lo <= wlo)%Z -> (whi <= hi)%Z -> (i64_min <= wlo)%Z -> (whi <= i64_max)%Z ->
+  (wlo <= 0 <= whi)%Z -> (whi - wlo <= i64_max)%Z ->
+  delta_dom nullable wlo whi vs ->
+  delta_load_vals nullable lo hi (delta_save vs) = Ok vs.
+Proof. intros. eapply delta_load_vals_save; eauto. Qed.
+
+Theorem C35_delta_u64_load_save : forall (nullable : bool) (vs : list (option Z)),
+  delta_dom nullable 0 i64_max vs ->
+  delta_load_vals nullable 0 i64_max (delta_save vs) = Ok vs.
+Proof.
+  intros nullable vs H. apply (delta_load_vals_save nullable 0 i64_max 0 i64_max);
+    rewrite ?i64_min_val, ?i64_max_val; try lia. exact H.
+Qed.
+
 Theorem C35_delta_load_is_rle_load : forall nullable lo hi (b : bytes) rs,
   delta_load nullable lo hi b = Ok rs -> i64_load nullable b = Ok rs.
 Proof. exact delta_load_rle. Qed.
@@ -227,3 +247,11 @@ Example C35_delta_nonvacuous :
   delta_load_vals true 0 9223372036854775807 [127;228;0;2;1;0;1;127;226;0]
     = Ok [Some 100%Z; Some 101%Z; Some 102%Z; None; Some 200%Z].
 Proof. split; vm_compute; reflexivity. Qed.
+Example C35_delta_load_save_nonvacuous :
+  delta_dom true 0 i64_max [Some 100%Z; Some 101%Z; None; Some 9223372036854775807%Z; Some 0%Z].
+Proof.
+  unfold delta_dom. rewrite i64_max_val. split; [|split].
+  - repeat constructor; unfold win; cbn; lia.
+  - repeat constructor; auto; discriminate.
+  - cbn. rewrite pow63_val. lia.
+Qed.
